@@ -23,8 +23,11 @@ func hBitsOf(c *Float) uint64 {
 // back to a literal denoting exactly the same bits.
 //
 //vf:unwind 200
+//vf:shards 16
 func VfC10_HexDouble() {
+	top := uint64(vfChoice("top-nibble", 16)) // first fork: distributes the work
 	bits := vfUint64("bits")
+	vfAssume(bits>>60 == top)
 	lit := fmt.Sprintf("0x%016X", bits)
 	c, err := NewFloatFromString(types.Double, lit)
 	vfReach("C10.hex.double")
@@ -60,8 +63,11 @@ func VfC10_HexDouble() {
 // mantissa bits zero (LLVM's rule, assumed).
 //
 //vf:unwind 200
+//vf:shards 16
 func VfC10_HexFloat() {
+	top := uint64(vfChoice("top-nibble", 16))
 	bits := vfUint64("bits")
+	vfAssume(bits>>60 == top)
 	vfAssume(bits&0x1FFFFFFF == 0)
 	lit := fmt.Sprintf("0x%016X", bits)
 	kind := types.Float
